@@ -330,6 +330,7 @@ func (dec *decoder) decodeOneofInner(oneof j5reflect.Oneof) error {
 		if err != nil {
 			return newFieldError(keyTokenStr, "no such key")
 		}
+		return nil
 	}
 
 	if len(foundKeys) > 1 {
